@@ -438,6 +438,19 @@ void add_highbit(mc::Main& m, std::vector<std::string> tiers)
     });
 }
 
+// wide code units whose value order and byte order disagree on a little-endian machine (0x0100 > 'a', but its
+// first byte 0x00 < 0x61): added after seeded breakage c04_memcmp_char16_order (a memcmp fast path in
+// char_traits::compare)
+template <typename Char>
+void add_wide(mc::Main& m, std::vector<std::string> tiers)
+{
+    m.job(cat(cname<Char>(), "/wide-units"), tiers, [=](mc::Reporter& r) {
+        std::vector<Char> ha{Char('a'), Char(0x0100), Char(0x20AC)};
+        std::vector<Char> singles{Char('a'), Char(0x0100), Char(0x20AC), Char(0xFF)};
+        sweep<Char>(r, ha, 2, ha, 2, singles);
+    });
+}
+
 } // namespace
 
 int main(int argc, char** argv)
@@ -451,6 +464,9 @@ int main(int argc, char** argv)
     add<char16_t>(m, q, 3, 2, false);
     add_highbit<char>(m, both);
     add_highbit<char8_t>(m, both);
+    add_wide<char16_t>(m, both);
+    add_wide<char32_t>(m, both);
+    add_wide<wchar_t>(m, both);
     add<char>(m, th, 8, 5, false);
     add<char>(m, th, 6, 4, false);
     add<char>(m, th, 5, 4, true);
